@@ -32,6 +32,11 @@ fn profiles(k: u32) -> Vec<(f32, f32, f32, f32)> {
         2 => vec![(2.0, -0.5, 0.0, -1.0), (3.0, -0.5, 1.0, -1.0), (3.0, 0.5, 1.0, 1.0), (2.0, 0.5, 0.0, 1.0)],
         // hard edges: a profile point repeated with a second normal (flat-shaded bicone; drum with its flat ends in the profile)
         3 => vec![(0.0, -1.0, 1.0, -1.0), (1.0, 0.0, 1.0, -1.0), (1.0, 0.0, 1.0, 1.0), (0.0, 1.0, 1.0, 1.0)],
+        // profiles wholly above, wholly below and just touching the plane y = 0 (nothing about a lathe depends on where along its
+        // axis the profile sits)
+        5 => vec![(1.0, 1.0, 1.0, 0.0), (1.0, 3.0, 1.0, 0.0)],
+        6 => vec![(0.5, -3.0, 1.0, -0.5), (1.5, -2.0, 1.0, 0.0), (0.5, -1.0, 1.0, 0.5)],
+        7 => vec![(1.0, -2.0, 1.0, 0.0), (1.0, 0.0, 1.0, 0.0)],
         _ => vec![(0.0, -1.0, 0.0, -1.0), (1.0, -1.0, 0.0, -1.0), (1.0, -1.0, 1.0, 0.0), (1.0, 1.0, 1.0, 0.0), (1.0, 1.0, 0.0, 1.0), (0.0, 1.0, 0.0, 1.0)],
     }
 }
@@ -113,8 +118,8 @@ fn closed(s: &Shape) -> Option<i64> {
         Shape::Torus { .. } => Some(0),
         Shape::Cone { capped, .. } | Shape::Cyl { capped, .. } => if capped { Some(2) } else { None },
         // (profiles 3 and 4 start and end on the axis: closed with or without caps)
-        Shape::LatheTurn { capped, profile, .. } => if capped || profile >= 3 { Some(2) } else { None },
-        Shape::Lathe { capped, az0, az1, profile, .. } | Shape::LatheLit { capped, az0, az1, profile, .. } => if (capped || profile >= 3) && az1 - az0 == 8 { Some(2) } else { None },
+        Shape::LatheTurn { capped, profile, .. } => if capped || profile == 3 || profile == 4 { Some(2) } else { None },
+        Shape::Lathe { capped, az0, az1, profile, .. } | Shape::LatheLit { capped, az0, az1, profile, .. } => if (capped || profile == 3 || profile == 4) && az1 - az0 == 8 { Some(2) } else { None },
     }
 }
 
@@ -291,7 +296,7 @@ fn shapes(quick: bool) -> Vec<Shape> {
         v.push(Shape::Capsule { sec, body: 2, cap: 2, r: 0.5 });
     }
     // full turns starting anywhere on a 1/400-turn grid (the sweep end minus start is a rounded f32 difference)
-    for start400 in -400..=400 { for (profile, sec, capped) in [(0u32, 5u32, true), (1, 8, true), (3, 6, false)] { if quick && start400 % 2 != 0 && profile != 0 { continue; } v.push(Shape::LatheTurn { profile, sec, start400, capped }); } }
+    for start400 in -400..=400 { for (profile, sec, capped) in [(0u32, 5u32, true), (1, 8, true), (3, 6, false), (5, 6, true), (6, 5, true), (7, 4, true)] { if quick && start400 % 2 != 0 && profile != 0 { continue; } if profile >= 5 && start400 % 50 != 0 { continue; } v.push(Shape::LatheTurn { profile, sec, start400, capped }); } }
     // many segments (accumulated altitude / height stepping): every count up to 200 on a few sector counts
     for seg in 11..=200u32 { for r in [0.5f32, 1.0, 3.0] { v.push(Shape::Sphere { sec: 3 + seg % 3, seg, r }); } v.push(Shape::Cone { sec: 4, seg, capped: true, rb: 1.0, ra: 0.0 }); v.push(Shape::Cone { sec: 4, seg, capped: true, rb: 0.0, ra: 0.4 }); v.push(Shape::Capsule { sec: 3, body: 1, cap: seg, r: 0.5 }); }
     // every sector count up to 300 on one member of each family (ring generation may work in blocks)
@@ -304,7 +309,7 @@ fn shapes(quick: bool) -> Vec<Shape> {
     v.push(Shape::Sphere { sec: 100, seg: 60, r: 3.0 });
     v.push(Shape::Torus { maj: 6, min: 257, rmaj: 3.0, rmin: 1.0 });
     v.push(Shape::Cone { sec: 5, seg: 300, capped: true, rb: 1.0, ra: 0.5 });
-    for profile in 0..5 { for sec in 3..=msec.min(12) { for (az0, az1) in [(0, 8), (0, 4), (0, 2), (1, 3), (-2, 5), (0, 7), (3, 6), (4, 8), (5, 13), (-4, -1)] { for capped in [false, true] {
+    for profile in 0..8 { for sec in 3..=msec.min(12) { for (az0, az1) in [(0, 8), (0, 4), (0, 2), (1, 3), (-2, 5), (0, 7), (3, 6), (4, 8), (5, 13), (-4, -1)] { for capped in [false, true] {
         v.push(Shape::Lathe { profile, sec, az0, az1, capped });
         if sec % 3 == 0 { v.push(Shape::LatheLit { profile, sec, az0, az1, capped }); }
     }}}}
